@@ -310,6 +310,62 @@ pub fn alt_state(gs: &GameState) -> GameState {
     )
 }
 
+thread_local! {
+    /// when set, the next observation also compares the state's hash with the from-scratch hashes
+    /// of all states that differ from it in exactly one hashed feature (C17 on reached states)
+    pub static WANT_C17: Cell<bool> = Cell::new(false);
+}
+
+/// transposition hash of a state built from scratch through public constructors
+fn scratch_th(c: &[u8; 64], gold: bool, step: usize, pp: PushPullState) -> u64 {
+    let pb = board_from_cells(c);
+    let z = Zobrist::from_piece_board(pb.piece_board(), gold, step);
+    z.board_state_hash_with_push_pull_state(pp)
+}
+
+/// the single-feature neighbours of (board, side, step, status) whose from-scratch hash equals th:
+/// returned as a JSON list of short descriptions (empty = C17 holds around this reached state)
+pub fn c17_collisions(c: &[u8; 64], gold: bool, step: usize, pp: PushPullState, th: u64) -> String {
+    let mut hits: Vec<String> = Vec::new();
+    for k in 0..64 {
+        for v in 0..13u8 {
+            if v == c[k] {
+                continue;
+            }
+            let mut c2 = *c;
+            c2[k] = v;
+            if scratch_th(&c2, gold, step, pp) == th {
+                hits.push(format!("[\"cell\",{},{}]", k + 1, v));
+            }
+        }
+    }
+    if scratch_th(c, !gold, step, pp) == th {
+        hits.push("[\"side\",0,0]".to_string());
+    }
+    for st in 0..4 {
+        if st != step && scratch_th(c, gold, st, pp) == th {
+            hits.push(format!("[\"step\",{},0]", st));
+        }
+    }
+    let mut pps = vec![PushPullState::None];
+    for sq in 0..64u8 {
+        for t in 1..=6u8 {
+            if t != 6 {
+                pps.push(PushPullState::MustCompletePush(Square::from_index(sq), num_type(t)));
+            }
+            if t != 1 {
+                pps.push(PushPullState::PossiblePull(Square::from_index(sq), num_type(t)));
+            }
+        }
+    }
+    for p2 in pps {
+        if p2 != pp && scratch_th(c, gold, step, p2) == th {
+            hits.push("[\"pp\",0,0]".to_string());
+        }
+    }
+    format!("[{}]", hits.join(","))
+}
+
 /// the JSON fields (without braces) describing gs. Panics propagate (call under guarded()).
 pub fn obs_fields(gs: &GameState, full: bool) -> String {
     let mut s = String::with_capacity(4096);
@@ -524,6 +580,14 @@ pub fn obs_fields(gs: &GameState, full: bool) -> String {
             }
         }
     }
+    // C17 on reached states (always the LAST fields: the digest of an observation ignores them)
+    if play && WANT_C17.with(|w| w.replace(false)) {
+        stage("c17 neighbours");
+        let hits = c17_collisions(&c, gold, st, gs.unwrap_play_phase().push_pull_state(), th);
+        write!(s, ",\"c17\":{},\"c17n\":1", hits).unwrap();
+    } else {
+        s.push_str(",\"c17\":[],\"c17n\":0");
+    }
     stage("");
     s
 }
@@ -598,6 +662,11 @@ impl Trace {
         self.emit(format!("{{\"ev\":\"tdig\",\"tid\":{},\"a\":[{},{}],\"pop\":{},\"dg\":\"{}\"}}", tid, x, y, pop, dg));
     }
 
+    /// C18: thread `tid` observed the shared state itself
+    pub fn tdig_self(&mut self, tid: usize, dg: &str, pop: usize) {
+        self.emit(format!("{{\"ev\":\"tdig\",\"tid\":{},\"a\":[-2,0],\"pop\":{},\"dg\":\"{}\"}}", tid, pop, dg));
+    }
+
     /// C18: the current state observed again (after the threads have joined)
     pub fn reobs(&mut self, gs: &GameState, pop: usize) -> bool {
         match guarded(|| obs_fields(gs, true)) {
@@ -624,7 +693,12 @@ impl Trace {
 /// digest of an observation (all projected fields and query results as one string)
 pub fn digest(fields: &str) -> String {
     let mut h = DefaultHasher::new();
-    fields.hash(&mut h);
+    // the optional C17 fields are not part of the observation that must be reproducible
+    let core = match fields.find(",\"c17\":") {
+        Some(at) => &fields[..at],
+        None => fields,
+    };
+    core.hash(&mut h);
     format!("{:016x}", h.finish())
 }
 
